@@ -17,6 +17,7 @@ import Caches.Lemmas.ConserveSlru
 import Caches.Lemmas.ConserveTwoQ
 import Caches.Lemmas.ConserveArc
 import Caches.Lemmas.ConserveWt
+import Caches.Lemmas.Ledger
 set_option linter.unusedSectionVars false
 namespace C04
 open M M.RawLru
@@ -71,8 +72,8 @@ theorem slru_remove_conserves (s : Slru κ ν) (k : κ) (o : Obj κ ν) :
     s.heldAll.count o = (s.remove k).1.heldAll.count o + (objsV (s.remove k).2.1 : List (Obj κ ν)).count o +
       (s.remove k).2.2.count o := Slru.remove_count s k o
 
-theorem slru_purge_releases (s : Slru κ ν) (o : Obj κ ν) :
-    ∃ s' d, s.purge = .ok (s', d) ∧ s'.heldAll = [] ∧ s.heldAll.count o = d.count o := Slru.purge_count s o
+theorem slru_purge_releases (s : Slru κ ν) :
+    ∃ s' d, s.purge = .ok (s', d) ∧ s'.heldAll = [] ∧ ∀ o : Obj κ ν, s.heldAll.count o = d.count o := Slru.purge_count s
 
 theorem slru_drop_releases (s : Slru κ ν) : s.dropCache = s.heldAll := rfl
 
@@ -92,8 +93,8 @@ theorem twoq_remove_conserves (q : TwoQ κ ν) (k : κ) (o : Obj κ ν) :
     q.heldAll.count o = (q.remove k).1.heldAll.count o + (objsV (q.remove k).2.1 : List (Obj κ ν)).count o +
       (q.remove k).2.2.count o := TwoQ.remove_count q k o
 
-theorem twoq_purge_releases (q : TwoQ κ ν) (o : Obj κ ν) :
-    ∃ q' d, q.purge = .ok (q', d) ∧ q'.heldAll = [] ∧ q.heldAll.count o = d.count o := TwoQ.purge_count q o
+theorem twoq_purge_releases (q : TwoQ κ ν) :
+    ∃ q' d, q.purge = .ok (q', d) ∧ q'.heldAll = [] ∧ ∀ o : Obj κ ν, q.heldAll.count o = d.count o := TwoQ.purge_count q
 
 theorem twoq_drop_releases (q : TwoQ κ ν) (o : Obj κ ν) : q.dropCache.count o = q.heldAll.count o := TwoQ.drop_count q o
 
@@ -113,8 +114,8 @@ theorem arc_remove_conserves (a : Arc κ ν) (k : κ) (o : Obj κ ν) :
     a.heldAll.count o = (a.remove k).1.heldAll.count o + (objsV (a.remove k).2.1 : List (Obj κ ν)).count o +
       (a.remove k).2.2.count o := Arc.remove_count a k o
 
-theorem arc_purge_releases (a : Arc κ ν) (o : Obj κ ν) :
-    ∃ a' d, a.purge = .ok (a', d) ∧ a'.heldAll = [] ∧ a.heldAll.count o = d.count o := Arc.purge_count a o
+theorem arc_purge_releases (a : Arc κ ν) :
+    ∃ a' d, a.purge = .ok (a', d) ∧ a'.heldAll = [] ∧ ∀ o : Obj κ ν, a.heldAll.count o = d.count o := Arc.purge_count a
 
 theorem arc_drop_releases (a : Arc κ ν) (o : Obj κ ν) : a.dropCache.count o = a.heldAll.count o := Arc.drop_count a o
 
@@ -134,10 +135,82 @@ theorem wtinylfu_remove_conserves (c : WTinyLfu κ ν) (k : κ) (o : Obj κ ν) 
     c.heldAll.count o = (c.remove k).1.heldAll.count o + (objsV (c.remove k).2.1 : List (Obj κ ν)).count o +
       (c.remove k).2.2.count o := WTinyLfu.remove_count c k o
 
-theorem wtinylfu_purge_releases (c : WTinyLfu κ ν) (o : Obj κ ν) :
-    ∃ c' d, c.purge = .ok (c', d) ∧ c'.heldAll = [] ∧ c.heldAll.count o = d.count o := WTinyLfu.purge_count c o
+theorem wtinylfu_purge_releases (c : WTinyLfu κ ν) :
+    ∃ c' d, c.purge = .ok (c', d) ∧ c'.heldAll = [] ∧ ∀ o : Obj κ ν, c.heldAll.count o = d.count o := WTinyLfu.purge_count c
 
 theorem wtinylfu_drop_releases (c : WTinyLfu κ ν) : c.dropCache = c.heldAll := rfl
+
+/-! ## the ledger over whole histories ("at any moment …")
+
+`runLedger` runs a history of `put` / `get` / `remove` / `purge` and keeps two columns: every object handed to the cache,
+and every object the cache handed back (in a `PutResult`, from `remove`) or dropped itself. For every history from a
+well-formed cache and for every object `o`: `#held at the start + #handed in = #held at the end + #handed back or dropped`.
+Starting from an empty cache this says each object handed in is, at that moment, exactly once in exactly one of the three
+places — nothing dropped twice, nothing leaked, nothing dropped while still held. -/
+
+theorem slru_ledger (p q : Nat) (s0 : Slru κ ν) (hc : Slru.new p q = some s0) (ops : List (LOp κ ν)) :
+    ∃ s ins outs, runLedger Slru.lstep s0 ops = .ok (s, ins, outs) ∧
+      ∀ o, ins.count o = s.heldAll.count o + outs.count o := by
+  obtain ⟨s, ins, outs, hr, _, he⟩ := ledger_history Slru.lstep Slru.Inv Slru.heldAll Slru.lstep_ok ops s0 (Slru.inv_new p q s0 hc).1
+  refine ⟨s, ins, outs, hr, fun o => ?_⟩
+  have h0 : s0.heldAll = [] := by
+    unfold Slru.new at hc; split at hc <;> try simp at hc
+    rw [← hc.2]; rfl
+  have := he o; rw [h0] at this; simpa using this
+
+theorem twoq_ledger (size : Nat) (rr gr : RatioClass) (rs es : Nat) (q0 : TwoQ κ ν)
+    (hc : TwoQ.new size rr gr rs es = .ok q0) (h0 : q0.heldAll = []) (ops : List (LOp κ ν)) :
+    ∃ q ins outs, runLedger TwoQ.lstep q0 ops = .ok (q, ins, outs) ∧
+      ∀ o, ins.count o = q.heldAll.count o + outs.count o := by
+  obtain ⟨q, ins, outs, hr, _, he⟩ := ledger_history TwoQ.lstep TwoQ.Inv TwoQ.heldAll TwoQ.lstep_ok ops q0 (TwoQ.inv_new size rr gr rs es q0 hc)
+  refine ⟨q, ins, outs, hr, fun o => ?_⟩
+  have := he o; rw [h0] at this; simpa using this
+
+theorem arc_ledger (size : Nat) (a0 : Arc κ ν) (hc : Arc.new size = some a0) (ops : List (LOp κ ν)) :
+    ∃ a ins outs, runLedger Arc.lstep a0 ops = .ok (a, ins, outs) ∧
+      ∀ o, ins.count o = a.heldAll.count o + outs.count o := by
+  obtain ⟨a, ins, outs, hr, _, he⟩ := ledger_history Arc.lstep Arc.Inv Arc.heldAll Arc.lstep_ok ops a0 (Arc.inv_new size a0 hc).1
+  refine ⟨a, ins, outs, hr, fun o => ?_⟩
+  have h0 : a0.heldAll = [] := by
+    unfold Arc.new at hc; split at hc <;> simp at hc; rw [← hc]; rfl
+  have := he o; rw [h0] at this; simpa using this
+
+theorem wtinylfu_ledger (kh : κ → UInt64) (c0 : WTinyLfu κ ν) (hi : c0.Inv) (h0 : c0.heldAll = []) (ops : List (LOp κ ν)) :
+    ∃ c ins outs, runLedger (WTinyLfu.lstep kh) c0 ops = .ok (c, ins, outs) ∧
+      ∀ o, ins.count o = c.heldAll.count o + outs.count o := by
+  obtain ⟨c, ins, outs, hr, _, he⟩ := ledger_history (WTinyLfu.lstep kh) WTinyLfu.Inv WTinyLfu.heldAll (WTinyLfu.lstep_ok kh) ops c0 hi
+  refine ⟨c, ins, outs, hr, fun o => ?_⟩
+  have := he o; rw [h0] at this; simpa using this
+
+/-- after a final `purge` (or `Drop`) nothing is held: everything handed in has been handed back or dropped, once -/
+theorem arc_ledger_closed (size : Nat) (a0 : Arc κ ν) (hc : Arc.new size = some a0) (ops : List (LOp κ ν)) :
+    ∃ a ins outs, runLedger Arc.lstep a0 (ops ++ [.purge]) = .ok (a, ins, outs) ∧ a.heldAll = [] ∧
+      ∀ o, ins.count o = outs.count o := by
+  obtain ⟨a, ins, outs, hr, he⟩ := arc_ledger size a0 hc (ops ++ [.purge])
+  -- the last step is a purge, so the final state holds nothing
+  have hlast : a.heldAll = [] := by
+    have key : ∀ (l : List (LOp κ ν)) (s : Arc κ ν) (a : Arc κ ν) (i o : List (Obj κ ν)), s.Inv →
+        runLedger Arc.lstep s (l ++ [.purge]) = .ok (a, i, o) → a.heldAll = [] := by
+      intro l
+      induction l with
+      | nil =>
+        intro s a i o hs hrun
+        obtain ⟨a', d, hp, h0, _⟩ := Arc.purge_count s
+        simp only [List.nil_append, runLedger, Arc.lstep, hp] at hrun
+        injection hrun with hrun; injection hrun with e1 _; rw [← e1]; exact h0
+      | cons x t ih =>
+        intro s a i o hs hrun
+        obtain ⟨s1, i1, o1, h1, hs1, _⟩ := Arc.lstep_ok s x hs
+        simp only [List.cons_append, runLedger, h1] at hrun
+        cases hr2 : runLedger Arc.lstep s1 (t ++ [.purge]) with
+        | error f => simp [hr2] at hrun
+        | ok res =>
+          obtain ⟨a2, i2, o2⟩ := res
+          simp only [hr2] at hrun; injection hrun with hrun; injection hrun with e1 _
+          rw [← e1]; exact ih s1 a2 i2 o2 hs1 hr2
+    exact key ops a0 a ins outs (Arc.inv_new size a0 hc).1 hr
+  refine ⟨a, ins, outs, hr, hlast, fun o => ?_⟩
+  have := he o; rw [hlast] at this; simpa using this
 
 /-- non-vacuity: an ARC `put` that pushes an entry out of a full ghost list drops exactly that entry -/
 example : (match ({ size := 1, p := 0, recent := ⟨1, [(1, 10)], false⟩, frequent := ⟨1, [], false⟩,
